@@ -221,6 +221,19 @@ def portable_docs(level):
             yield ('multi', r1, sp, r2), r1 + sp + r2
             for r3 in roots[:4] if level else roots[:1]:
                 yield ('multi3', r1, sp, r2, r3), r1 + sp + r2 + '---\n' + r3
+    # (3b) blank / comment / indented-blank lines between a document's last line and the next marker, and multi-line scalars
+    # whose continuation lines meet markers, escapes and breaks
+    gaps = ['\n', '\n\n', '\n\n\n', '\n \n', '\n# c\n', '\n\n# c\n\n']
+    lasts = ['a', 'a b', 'a\n b', '- a', 'k: a', "'a'", '"a"', '[a]', 'k:\n  - a', '- a\n  b']
+    marks = ['--- b\n', '...\n', '...\n--- b\n', '---\nb\n', '--- |\n b\n']
+    for la in lasts:
+        for g in gaps:
+            for mk in marks:
+                yield ('gap', la, g, mk), la + g + mk
+                yield ('gap2', la, g, mk), '--- ' + la + g + mk if not la.startswith(('- ', 'k:')) else '---\n' + la + g + mk
+    for dq in ['"a\\\n  b"', '"a \\\n  b"', '"a\\\n\\ b"', '"a\n\n  b"', '"a\n  b\n\n  c"', '"\\\n"', '"a\\\n\n b"', "'a\n\n  b'", "'a\n  b'", 'a\n  b\n\n  c', '"a\\\n  \\\n  b"']:
+        for fr in ('%s\n', 'k: %s\n', '- %s\n', '[%s]\n', '--- %s\n...\n'):
+            yield ('multiline', dq, fr), fr % dq
     # (4) malformed classes named by the property
     bad = [('undef-alias', '*u\n'), ('undef-alias', '- *u\n'), ('undef-alias', 'a: *u\n'), ('undef-alias', '[&a x, *b]\n'),
            ('undef-alias', '- &a x\n--- \n- *a\n'), ('dup-anchor', '- &a x\n- &a y\n'), ('dup-anchor', '&a [&a x]\n'),
